@@ -58,6 +58,9 @@ def match_table(body):
                 if s["k"] == "assign" and s["p"]["l"] == 0 and not s["p"]["p"]:
                     return prov.rvalue(s["rv"])
             tt = body.term(bb)
+            if tt["k"] == "call" and tt["dest"]["l"] == 0 and not tt["dest"]["p"]:
+                c = tt["callee"]
+                return ("call", c.get("rpath") or c.get("path"), tuple(prov.op(a) for a in tt["args"]), bb, c.get("path"))
             if tt["k"] == "goto":
                 bb = tt["target"]
             elif tt["k"] == "switch":
@@ -69,3 +72,110 @@ def match_table(body):
     for v, tgt in t["arms"]:
         arms[v] = arm_result(tgt)
     return prov.op(t["discr"]), arms, arm_result(t["otherwise"]), bi
+
+
+class TableShape(Exception):
+    pass
+
+
+def scalar_fn(body):
+    """Reads a function of one scalar argument whose body consists only of comparisons of the
+    argument with constants, switches on the argument, and constant / identity-cast results wrapped
+    in Option. Returns (evaluate(v) -> ('some', x) | ('none',), breakpoints). Raises TableShape
+    when the body is not of this shape (fail closed)."""
+    prov = sym.Prov(body)
+    if body.arg_count != 1:
+        raise TableShape("expected exactly one argument")
+
+    def is_input(t):
+        t = sym.strip(t)
+        while t[0] == "cast" and t[1] == "IntToInt":
+            t = sym.strip(t[4])
+        return t[0] == "arg" and t[1] == 1
+
+    def const_of(t):
+        t = sym.strip(t)
+        while t[0] == "cast" and t[1] == "IntToInt":
+            t = sym.strip(t[4])
+        if t[0] == "c" and t[1] is not None:
+            return t[1]
+        return None
+    breakpoints = set()
+    nodes = {}
+    for bi in body.rpo():
+        t = body.term(bi)
+        res = None
+        for s in body.stmts(bi):
+            if s["k"] == "assign" and s["p"]["l"] == 0 and not s["p"]["p"]:
+                rv = s["rv"]
+                if rv["k"] == "agg" and rv.get("vname") == "None":
+                    res = ("none",)
+                elif rv["k"] == "agg" and rv.get("vname") == "Some":
+                    ft = prov.op(rv["fields"][0])
+                    if is_input(ft):
+                        res = ("some-id",)
+                    else:
+                        c = const_of(ft)
+                        if c is None:
+                            raise TableShape("result in bb%d is neither a constant nor the argument: %s" % (bi, sym.show(ft)))
+                        res = ("some", c)
+                elif rv["k"] == "use" and const_of(prov.op(rv["op"])) is not None:
+                    res = ("some", const_of(prov.op(rv["op"])))
+                else:
+                    raise TableShape("unrecognised result in bb%d" % bi)
+        if t["k"] == "switch":
+            dt = prov.op(t["discr"])
+            if is_input(dt):
+                for v, _ in t["arms"]:
+                    breakpoints.add(v)
+                nodes[bi] = ("switch-input", {v: tg for v, tg in t["arms"]}, t["otherwise"], res)
+            else:
+                d = sym.strip(dt)
+                if d[0] == "bin" and d[1] in ("Lt", "Le", "Gt", "Ge", "Eq", "Ne"):
+                    a, b = d[2], d[3]
+                    if is_input(a) and const_of(b) is not None:
+                        op, k = d[1], const_of(b)
+                    elif is_input(b) and const_of(a) is not None:
+                        from guards import CMP_FLIP
+                        op, k = CMP_FLIP[d[1]], const_of(a)
+                    else:
+                        raise TableShape("comparison in bb%d does not compare the argument with a constant: %s" % (bi, sym.show(d)))
+                    breakpoints.add(k)
+                    false_t = [tg for v, tg in t["arms"] if v == 0]
+                    if len(t["arms"]) != 1 or not false_t:
+                        raise TableShape("bool switch with unexpected arms in bb%d" % bi)
+                    nodes[bi] = ("cmp", op, k, t["otherwise"], false_t[0], res)
+                else:
+                    raise TableShape("switch in bb%d on %s" % (bi, sym.show(d)))
+        elif t["k"] == "goto":
+            nodes[bi] = ("goto", t["target"], res)
+        elif t["k"] == "return":
+            nodes[bi] = ("return", res)
+        else:
+            raise TableShape("terminator %s in bb%d" % (t["k"], bi))
+
+    def evaluate(v):
+        bb = 0
+        result = None
+        steps = 0
+        while True:
+            steps += 1
+            if steps > 10000:
+                raise TableShape("loop")
+            n = nodes[bb]
+            r = n[-1]
+            if r is not None:
+                result = ("some", v) if r[0] == "some-id" else r
+            if n[0] == "return":
+                if result is None:
+                    raise TableShape("return without result")
+                return result
+            if n[0] == "goto":
+                bb = n[1]
+            elif n[0] == "switch-input":
+                bb = n[1].get(v, n[2])
+            else:
+                _, op, k, tb, fb, _r = n
+                ok = {"Lt": v < k, "Le": v <= k, "Gt": v > k, "Ge": v >= k, "Eq": v == k, "Ne": v != k}[op]
+                bb = tb if ok else fb
+    return evaluate, breakpoints
